@@ -36,7 +36,10 @@ pub fn coercion_agree(native: &Result<Vec<arrow::datatypes::DataType>, String>, 
 /// panic inside an `extern "C"` entry point would abort the process), so callers stop comparing when the native
 /// side panics and label the case instead.
 pub fn guard<T>(f: impl FnOnce() -> T) -> Result<T, String> {
-    match std::panic::catch_unwind(std::panic::AssertUnwindSafe(f)) {
+    let was = IN_FOREIGN.with(|x| x.replace(false));
+    let r = std::panic::catch_unwind(std::panic::AssertUnwindSafe(f));
+    IN_FOREIGN.with(|x| x.set(was));
+    match r {
         Ok(v) => Ok(v),
         Err(p) => Err(if let Some(s) = p.downcast_ref::<&str>() {
             s.to_string()
@@ -46,6 +49,43 @@ pub fn guard<T>(f: impl FnOnce() -> T) -> Result<T, String> {
             "<panic>".to_string()
         }),
     }
+}
+
+thread_local! {
+    static CURRENT_CASE: std::cell::RefCell<Option<(String, String)>> = const { std::cell::RefCell::new(None) };
+    static IN_FOREIGN: std::cell::Cell<bool> = const { std::cell::Cell::new(false) };
+}
+
+/// Remember the case a shard thread is working on. A panic raised while a FOREIGN call is in flight happens
+/// inside an `extern "C"` entry point of datafusion-ffi and aborts the process before the engine can save
+/// anything: the chained panic hook below writes the case to /verif/replays/<sub>-foreign-abort-<hash>.json
+/// (and stderr) first, so the abort is reproducible with `--replay`.
+pub fn set_current_case<C: serde::Serialize>(sub: &str, case: &C) {
+    static HOOK: std::sync::Once = std::sync::Once::new();
+    HOOK.call_once(|| {
+        let prev = std::panic::take_hook();
+        std::panic::set_hook(Box::new(move |info| {
+            if IN_FOREIGN.with(|f| f.get()) {
+                if let Some((sub, json)) = CURRENT_CASE.with(|c| c.borrow().clone()) {
+                    let path = vf_kit::engine::verif_root().join("replays").join(format!("{sub}-foreign-abort-{:016x}.json", vf_kit::engine::fnv1a(json.as_bytes())));
+                    let _ = std::fs::create_dir_all(path.parent().unwrap_or(std::path::Path::new(".")));
+                    let _ = std::fs::write(&path, &json);
+                    eprintln!("FOREIGN-PANIC sub={sub}: {info}\n  case saved to {}", path.display());
+                }
+            }
+            prev(info);
+        }));
+    });
+    let json = serde_json::to_string_pretty(case).unwrap_or_default();
+    CURRENT_CASE.with(|c| *c.borrow_mut() = Some((sub.to_string(), json)));
+}
+
+/// run a call that crosses the FFI (see `set_current_case`)
+pub fn foreign<T>(f: impl FnOnce() -> T) -> T {
+    IN_FOREIGN.with(|x| x.set(true));
+    let r = f();
+    IN_FOREIGN.with(|x| x.set(false));
+    r
 }
 
 fn main() {
